@@ -123,8 +123,9 @@ def run(case):
     b1 = E.build(case)
     stream2, bound, changed_next, tm = perturbed_stream(b1, case)
     b2 = E.build(case, stream_override=stream2)
-    t1, end1 = E.run_episode(b1.env, case["actions"], fold=E.fold_name(case))
-    t2, end2 = E.run_episode(b2.env, case["actions"], fold=E.fold_name(case))
+    kind = case.get("action_type", "array64")
+    t1, end1 = E.run_episode(b1.env, case["actions"], fold=E.fold_name(case), action_kind=kind)
+    t2, end2 = E.run_episode(b2.env, case["actions"], fold=E.fold_name(case), action_kind=kind)
     cut = case["cut"]
     upto = cut + 1            # trace[0] is the reset (timestep 0), trace[j] the step landing on steps[j]
     traded_before = False
